@@ -68,3 +68,127 @@ def offset_lemma_task(ctx):
     ctx.discharge(obls, cap=ctx.cap(120, 600))
     if not n_ok:
         ctx.add('M:offset_lemma:paths', 'M', 'fault', 0, f'expected Ok paths, got {n_ok} Ok / {n_err} Err', False)
+
+
+# ------------------------------------------------------------------------------------------------------------------
+# SparseSwapTickSequenceBuilder::new: merge + de-duplication of the supplied tick-array accounts
+class KeyedVec:
+    """abstract Vec<AccountInfo>: a list of (present flag, key term, origin tag); std's Vec operations used by the function are MODELLED from their
+    documented semantics (Extend: concatenation; sort_by_key: stable ascending sort by the key the closure returns; dedup_by_key: removes all but the
+    first of CONSECUTIVE elements with equal keys) — the closures are the function's own MIR and are executed to obtain each key"""
+    def __init__(s, items): s.items = list(items)
+    def __repr__(s): return f'KeyedVec({len(s.items)})'
+
+
+def builder_task(n_static, n_suppl):
+    tag = f'builder_dedup:{n_static}+{n_suppl}'
+
+    def task(ctx):
+        from vlib import handler as H
+        T.reset()
+        e = M.Engine(ctx.mir(), prune_ms=300)
+        H.install(e)
+        keys = [T.var(f'key{i}', 0, (1 << 256) - 1) for i in range(n_static + n_suppl)]
+        accts = [H.Acct(f'acct{i}', I(k, 'pubkey')) for i, k in enumerate(keys)]
+        rec = {'sort': 0, 'dedup': 0, 'extend': 0}
+
+        def key_via_closure(e_, callee, which, acct, path):
+            """run the closure the code passes (its MIR) on one element to get the key term"""
+            cl = re.findall(r'\{closure@[^}]*\}', callee)
+            c = cl[-1]
+            cands = [nme for nme, f in e_.mir.fns.items() if f.sig.startswith('_1: &' + c) or f.sig.startswith('_1: &mut ' + c) or f.sig.startswith('_1: ' + c)]
+            fr = M.Frame(None); fr.loc = {'_900': acct}
+            outs = [(p, r) for p, r in e_.run(e_.mir.fns[cands[0]], [Opaque('closure'), M.Ref(fr, '_900')], path, _top=False)]
+            assert len(outs) == 1, outs
+            return outs[0][1].t
+
+        def vec_of(e_, v):
+            v = e_.deref(v)
+            return v
+
+        def extend(e_, callee, args, path):
+            rec['extend'] += 1
+            dst_ref = args[0]; src = vec_of(e_, args[1])
+            dst = e_.deref(dst_ref)
+            new = KeyedVec(dst.items + src.items)
+            e_.write_place(dst_ref.frame, dst_ref.place, new)
+            yield path, M.Unit()
+        e.summaries.insert(0, (re.compile(r'as Extend<.*>>::extend::<Vec<'), extend))
+
+        def deref_mut(e_, callee, args, path):
+            yield path, args[0]
+        e.summaries.insert(0, (re.compile(r'^<Vec<.*> as DerefMut>::deref_mut$'), deref_mut))
+
+        def sort_by_key(e_, callee, args, path):
+            rec['sort'] += 1
+            ref = args[0]
+            while isinstance(e_.read_place(ref.frame, ref.place), M.Ref): ref = e_.read_place(ref.frame, ref.place)
+            v = e_.read_place(ref.frame, ref.place)
+            items = [(pres, key_via_closure(e_, callee, 'sort', H.Acct('x', I(k, 'pubkey')), path), org) for (pres, k, org) in v.items]
+            # stable insertion-sort network on (key, origin): compare-exchange of neighbours, n rounds
+            n = len(items)
+            cur = [(pres, k, org) for (pres, k, org) in items]
+            for rnd in range(n):
+                for j in range(n - 1 - rnd):
+                    (p1, k1, o1), (p2, k2, o2) = cur[j], cur[j + 1]
+                    sw = T.cmp('>', k1, k2)
+                    cur[j] = (T.ite(sw, p2, p1) if p1 is not p2 else p1, T.ite(sw, k2, k1), T.ite(sw, o2, o1))
+                    cur[j + 1] = (T.ite(sw, p1, p2) if p1 is not p2 else p1, T.ite(sw, k1, k2), T.ite(sw, o1, o2))
+            e_.write_place(ref.frame, ref.place, KeyedVec(cur))
+            yield path, M.Unit()
+        e.summaries.insert(0, (re.compile(r'::sort_by_key::<'), sort_by_key))
+
+        def dedup_by_key(e_, callee, args, path):
+            rec['dedup'] += 1
+            ref = args[0]
+            v = e_.deref(ref)
+            out = []
+            last_kept_key = None      # key of the most recent KEPT element (std compares each element with the last retained one)
+            for idx, (pres, k, org) in enumerate(v.items):
+                kk = key_via_closure(e_, callee, 'dedup', H.Acct('x', I(k, 'pubkey')), path)
+                if last_kept_key is None:
+                    keep = pres
+                    last_kept_key = kk
+                else:
+                    keep = T.and_(pres, T.not_(T.cmp('=', kk, last_kept_key)))
+                    last_kept_key = T.ite(keep, kk, last_kept_key)
+                out.append((keep, k, org))
+            e_.write_place(ref.frame, ref.place, KeyedVec(out))
+            yield path, M.Unit()
+        e.summaries.insert(0, (re.compile(r'::dedup_by_key::<'), dedup_by_key))
+
+        def mk(accs, off):
+            return KeyedVec([(TRUE, a.key.t, C(off + i)) for i, a in enumerate(accs)])
+        st = mk(accts[:n_static], 0)
+        sup = E('Some', [mk(accts[n_static:], n_static)]) if n_suppl else E('None')
+        fn = [f for f in e.mir.fns if re.search(r'sparse_swap::<impl at [^>]*>::new$', f) and 'Vec<__AccountInfo' in e.mir.fns[f].sig]
+        assert len(fn) == 1, fn
+        obls = []
+        outs = list(e.run(fn[0], [st, sup], Path([])))
+        for i, (p, r) in enumerate(outs):
+            if isinstance(r, Panic):
+                o = M.Obligation(f'{tag}:path{i}:no_panic', p.pc, FALSE, note=r.msg); o.replay = None; obls.append(o); continue
+            v = r.get('tick_array_accounts')
+            items = v.items
+            nodup = []
+            for a in range(len(items)):
+                for b in range(a + 1, len(items)):
+                    nodup.append(T.not_(T.and_(items[a][0], items[b][0], T.cmp('=', items[a][1], items[b][1]))))
+            o = M.Obligation(f'{tag}:path{i}:no_two_remaining_accounts_share_a_key', p.pc, T.and_(*nodup),
+                             note='after the merge no key occurs twice among the retained accounts, whatever the positions of the duplicates in the input'); o.replay = None; obls.append(o)
+            keep_all = []
+            for k in keys:
+                keep_all.append(T.or_(*[T.and_(pres, T.cmp('=', kk, k)) for (pres, kk, org) in items]))
+            o = M.Obligation(f'{tag}:path{i}:every_supplied_key_is_retained', p.pc, T.and_(*keep_all), note='every supplied account key is still present'); o.replay = None; obls.append(o)
+            o = M.Obligation(f'{tag}:path{i}:nothing_new', p.pc, T.and_(*[T.or_(T.not_(pres), *[T.cmp('=', kk, k) for k in keys]) for (pres, kk, org) in items]),
+                             note='every retained key is one of the supplied keys'); o.replay = None; obls.append(o)
+        ctx.extra[tag] = dict(paths=len(outs), modelled_calls=dict(rec))
+        ctx.functions.update(e.executed)
+        ctx.discharge(obls, cap=ctx.cap(60, 300))
+        if not outs or rec['dedup'] == 0:
+            ctx.add(f'M:{tag}:vacuity', 'M', 'fault', 0, f'paths={len(outs)} modelled calls={rec}', False)
+    return tag, task
+
+
+def builder_tasks():
+    return [builder_task(3, 0), builder_task(3, 1), builder_task(3, 3)]
